@@ -107,7 +107,7 @@ def run (ctx : Algo.Ctx) (op : String) (args impl : List String) : Outcome :=
     let atTime := taken.map fun (cl, ids) => ids.map cl.cell
     let atEnd := taken.map fun (_, ids) => ids.map final.cell
     let spec := match impl with
-      | [a, b] => if a != b then specFail "[C13] a snapshot changed after it was taken" else specOk
+      | [a, b] => if a != b then specFail "[C13,C06] a snapshot changed after it was taken" else specOk
       | _ => specFail "[C13] unparsable answer"
     { model := s!"{showSnaps atTime} {showSnaps atEnd}", spec,
       tags := ["frozen"] ++ (if tl > 0 then ["tail"] else []) ++
